@@ -357,11 +357,28 @@ fn diff_kind(d: &str) -> &'static str {
 }
 
 pub fn short(e: &str) -> String {
-    let mut s: String = e.chars().take(60).collect();
-    if let Some(p) = s.find(|c: char| c.is_ascii_digit()) {
-        s.truncate(p);
+    // normalise extractor messages into a handful of classes (they end up as keys in the evidence)
+    if e.contains("not emitted in pre-order") {
+        return "extractor: a field refers to a struct that is not emitted in pre-order".into();
     }
-    s
+    if e.contains("but the next struct in pre-order") {
+        return "extractor: a field's type is not the next struct in pre-order".into();
+    }
+    if e.contains("not reachable from the first struct") {
+        return "extractor: structs not reachable from the first struct".into();
+    }
+    if e.contains("has type other than (Option<)String") {
+        return "extractor: attribute field with a non-String type".into();
+    }
+    if e.contains("two text fields") {
+        return "extractor: two text fields in one struct".into();
+    }
+    if let Some(p) = e.find(": expected ") {
+        let rest: String = e[p + 2..].chars().take(28).collect();
+        return format!("extractor: line grammar, {}", rest);
+    }
+    let s: String = e.chars().take(48).collect();
+    s.split(|c: char| c.is_ascii_digit()).next().unwrap_or("").to_string()
 }
 
 fn tree_vs_model(t: &Element<String>, m: &SNode, path: &str) -> Option<String> {
